@@ -223,14 +223,22 @@ fn check_backend(
             if what == "jit" {
                 if let Op::Binary(o @ (BinaryOpcode::Mul | BinaryOpcode::Div), l, r) = op {
                     let (a, b) = (iv_of(l).unwrap(), iv_of(r).unwrap());
+                    // mixed NaN / non-NaN bound products: either a NaN born
+                    // from non-NaN bounds (0 * inf, inf / inf), or a half-NaN
+                    // operand such as [NaN, inf] handed over by the JIT's own
+                    // add / sub (finding F14 of C11)
+                    let (mut nan_products, mut real_products) = (0, 0);
                     for x in [a.lower(), a.upper()] {
                         for y in [b.lower(), b.upper()] {
                             let p = if o == BinaryOpcode::Mul { x * y } else { x / y };
-                            if p.is_nan() && !x.is_nan() && !y.is_nan() {
-                                f18 = true;
+                            if p.is_nan() {
+                                nan_products += 1;
+                            } else {
+                                real_products += 1;
                             }
                         }
                     }
+                    f18 = nan_products > 0 && real_products > 0;
                 }
             }
             if f18 && s == Sat::No && !t && cx.known("F18-jit-interval-mul-nan-product") {
